@@ -188,6 +188,14 @@ def unicode_bytes(s):
 def gen_scanner_texts(rng, n):
     out = ["# @grog\nfoo:\n", "# @grog\nfoo:", "# @grog\n\nfoo:\n", "# @grog\n#\nfoo:\n", "# @grog\n", "# @grog", "", "\n", "# @grog\n# name: x\n",
            "# @grog\n# @grog\nfoo:\n", "# @grog\nfoo\n", "# @grog\n# name: [\nfoo:\n", "#!/bin/sh\n# @grog\necho\n", "# @grog\n# name: a\nx:\n# @grog\n# name: b\ny:\n"]
+    # boundary sizes: number of annotation lines / blocks around powers of two, lines around the 64 KiB scanner limit
+    for k in (63, 64, 65, 127, 128, 129, 255, 256, 257, 1023, 1024, 1025):
+        out.append("# @grog\n# dependencies:\n" + "".join(f"#   - //p:d{i}\n" for i in range(k)) + "foo:\n")
+        if k <= 257:
+            out.append("".join(f"# @grog\n# name: t{i}\ng{i}:\n\ttrue\n" for i in range(k)))
+    for L in (65533, 65534, 65535, 65536, 65537):
+        out.append("# @grog\n# name: " + "n" * (L - 8) + "\nfoo:\n")
+        out.append("# @grog\n# name: x\n" + "g" * (L - 1) + ":\n")
     pieces = [unicode_bytes(p) for p in LINE_PIECES]
     for _ in range(n):
         k = rng.choice([1, 2, 3, 4, 6, 9])
@@ -262,7 +270,7 @@ def render(dto, name, rng=None):
     if name == "BUILD.json":
         return G.render_json(dto, rng)
     if name == "BUILD.yaml":
-        return G.render_yaml(dto)
+        return G.render_yaml(dto, rng)
     if name == "BUILD.star":
         return G.render_starlark(dto)
     if name == "Makefile":
@@ -433,6 +441,12 @@ def multi_part(ctx, tabs, rng, n, scratch):
     stats = ctx.coverage.setdefault("workspaces", {"cases": 0, "ok": 0, "error": 0, "same_dir_merges": 0, "files": 0})
     cases, ireqs = [], []
     WORKERS = (1, 2, 16, 16)
+
+    def add_case(entries, files):
+        # the same workspace is loaded four times: worker counts 1/2/16/16, files created in a different (shuffled) order each time
+        cases.append((entries, files))
+        ireqs.extend({"op": "load.packages", "dir": scratch, "files": rng.sample(files, len(files)), "workers": w, "timeout_s": 30} for w in WORKERS)
+
     for case in range(n):
         dirs = rng.sample(G.PKGS, rng.choice([1, 2, 3, 4]))
         entries = []
@@ -461,8 +475,32 @@ def multi_part(ctx, tabs, rng, n, scratch):
                     entries.append((d, nm, render(dto, nm, rng), dto))
         files = workspace_files([(d, nm, t) for d, nm, t, _ in entries])
         stats["files"] += len(entries)
-        cases.append((entries, files))
-        ireqs += [{"op": "load.packages", "dir": scratch, "files": files, "workers": w, "timeout_s": 20} for w in WORKERS]
+        add_case(entries, files)
+        if case < 3:
+            # boundary sizes: more BUILD files than the walker's queue (100) / worker count, many targets in one package
+            entries = []
+            if case == 0:
+                for i in range(130):
+                    dto = {"targets": [{**G.gen_target(rng, "t", ["t"], faults=False), "deps": [f"//d{i-1:03d}:t"] if i else [], "inputs": [], "excludes": []}],
+                           "aliases": [], "default_platforms": None}
+                    nm = ["BUILD.json", "BUILD.yaml", "BUILD.star"][i % 3]
+                    entries.append((f"d{i:03d}", nm, render(dto, nm, rng), dto))
+            elif case == 1:
+                for nm, lo in (("BUILD.yaml", 0), ("BUILD.json", 257)):
+                    dto = {"targets": [{**G.gen_target(rng, f"t{i}", [f"t{j}" for j in range(max(0, i - 3), i + 1)], faults=False), "inputs": [], "excludes": []}
+                                       for i in range(lo, lo + 257)], "aliases": [], "default_platforms": None}
+                    entries.append(("big", nm, render(dto, nm, rng), dto))
+            else:
+                for i in range(65):
+                    dto = {"targets": [{**G.gen_target(rng, f"m{i}", ["m0"], mk=True, faults=False), "inputs": []}], "aliases": [], "default_platforms": None}
+                    entries.append((f"m/{i:02d}", "Makefile", G.render_makefile(dto, rng), None))
+                    t = G.gen_target(rng, f"s{i}", ["m0"], mk=True, faults=False)
+                    t["outputs"] = []; t["inputs"] = []
+                    entries.append((f"m/{i:02d}", "run.grog.sh", G.render_script(t), None))
+            files = [[rel(d, nm), t] for d, nm, t, _ in entries]
+            stats["files"] += len(entries)
+            stats["large_cases"] = stats.get("large_cases", 0) + 1
+            add_case(entries, files)
     io = G.run_resilient(ctx, ireqs)
     if io is None:
         return False
@@ -480,6 +518,7 @@ def multi_part(ctx, tabs, rng, n, scratch):
         mres.setdefault(c, []).append(flatten_model(r))
     for case, (entries, files) in enumerate(cases):
         rs = io[case * len(WORKERS):(case + 1) * len(WORKERS)]
+        files = sorted(files)
         flat = []
         crashed = False
         for r in rs:
@@ -561,12 +600,69 @@ def crash_part(ctx, tabs, rng, n, scratch):
             fz["outcome_error"] += 1
         else:
             fz["outcome_loaded"] += 1
+    # a Starlark program that does not terminate in any reasonable time (own driver process: the evaluation keeps running)
+    runaway = "def f():\n    for a in range(1000000):\n        for b in range(1000000):\n            for c in range(1000000):\n                pass\nf()\n"
+    r = G.run_resilient(ctx, [{"op": "load.packages", "dir": scratch, "files": [["BUILD.star", runaway]], "workers": 1, "timeout_s": 6}])[0]
+    fz["cases"] += 1
+    fz["by_kind"]["runaway-program"] = 1
+    ctx.coverage["evaluations"] += 1
+    desc = bad_reply(r)
+    if desc:
+        fz["panics_or_hangs"] += 1
+        ctx.violation("BUILD.star with a (practically) non-terminating loop: the loader does not return within 6 s and has no step limit",
+                      {"kind": "oracle", "oracle": "no panic / hang (fuzzing)", "file": "BUILD.star", "corruption": "runaway-program", "text": runaway, "impl": r},
+                      signature="starlark:unbounded-evaluation")
     # corrupted Makefiles / scripts also go through the scanner correspondence
     scanner_part(ctx, tabs, scan_texts, scratch)
     return True
 
 
 # ----------------------------------------------------------------------------------------------
+
+def cli_part(ctx):
+    """clause "an error message and a non-zero exit, never a panic": the real grog binary on malformed workspaces"""
+    import subprocess
+    grog = ctx.grog_binary()
+    if not grog:
+        return
+    cases = [("valid", {"BUILD.json": '{"targets":[{"name":"a","command":"true"}]}'}, True),
+             ("bad json", {"BUILD.json": '{"targets":[{"name":"a",'}, False),
+             ("null entry", {"BUILD.json": '{"targets":[null]}'}, False),
+             ("bad yaml", {"BUILD.yaml": "targets:\n  - name: [\n"}, False),
+             ("yaml null entry", {"BUILD.yaml": "targets:\n- ~\n"}, False),
+             ("bad starlark", {"BUILD.star": "target(name=1)\n"}, False),
+             ("bare annotation", {"Makefile": "# @grog\nfoo:\n\ttrue\n"}, True),
+             ("annotation yaml error", {"Makefile": "# @grog\n# name: [\nfoo:\n"}, False),
+             ("rule without colon", {"Makefile": "# @grog\n# name: x\nfoo\n"}, False),
+             ("bad label", {"BUILD.json": '{"targets":[{"name":"a","command":"true","dependencies":["nope"]}]}'}, False),
+             ("duplicate across files", {"BUILD.json": '{"targets":[{"name":"a","command":"true"}]}', "BUILD.yaml": "targets:\n- name: a\n  command: x\n"}, False),
+             ("bad timeout", {"BUILD.json": '{"targets":[{"name":"a","command":"true","timeout":"soon"}]}'}, False),
+             ("script yaml error", {"x.grog.sh": "# @grog\n# name: [\necho\n"}, False)]
+    res = []
+    for k, (what, files, ok) in enumerate(cases):
+        ws = ctx.scratch(f"cli/w{k}")
+        open(os.path.join(ws, "grog.toml"), "w").write("")
+        for f, t in files.items():
+            open(os.path.join(ws, f), "w").write(t)
+        env = dict(os.environ, GROG_ROOT=ctx.scratch("cli/root"), HOME=ctx.scratch("cli/home"))
+        try:
+            p = subprocess.run([grog, "list", "//..."], cwd=ws, env=env, capture_output=True, text=True, timeout=30)
+            rc, out = p.returncode, p.stdout + p.stderr
+        except subprocess.TimeoutExpired:
+            rc, out = "timeout", ""
+        res.append({"case": what, "exit": rc})
+        ctx.coverage["evaluations"] += 1
+        crashed = rc == "timeout" or "panic:" in out or "goroutine " in out or (isinstance(rc, int) and rc < 0)
+        if crashed:
+            ctx.violation(f"grog list on a workspace with {what}: " + ("no exit within 30 s" if rc == "timeout" else "the process panicked"),
+                          {"kind": "oracle", "oracle": "CLI: error message and non-zero exit, never a panic", "files": [[f, t] for f, t in files.items()],
+                           "exit": rc, "output": out[-1500:]}, signature=crash_signature(list(files)[0], "hang" if rc == "timeout" else "panic: " + out[-200:], ""))
+        elif ok != (rc == 0) or (not ok and not out.strip()):
+            ctx.violation(f"grog list on a workspace with {what}: exit status {rc}" + ("" if out.strip() else " and no message"),
+                          {"kind": "oracle", "oracle": "CLI: error message and non-zero exit for malformed files, zero for valid ones",
+                           "files": [[f, t] for f, t in files.items()], "exit": rc, "output": out[-1500:]}, signature="cli:wrong-exit-status")
+    ctx.coverage["cli_exit_status"] = res
+
 
 def run(ctx):
     quick = ctx.tier == "quick"
@@ -594,6 +690,7 @@ def run(ctx):
     if not multi_part(ctx, tabs, ctx.rng, n_multi, scratch):
         return
     crash_part(ctx, tabs, ctx.rng, n_crash, scratch)
+    cli_part(ctx)
     ctx.coverage["traces_validated_against_impl"] = ctx.coverage["evaluations"]
     bad_yaml = [c for c, v in tabs.yaml.items() if isinstance(v, tuple)]
     for c in bad_yaml[:1]:
